@@ -36,6 +36,11 @@ def models(tier):
             cfg["peers"][0].update(ov)
             out.append(monitors.ScenarioModel(f"outbound-idle{idle}-dwa{dwa}-wake{wake}-peer:{oname}", cfg, alpha, MONS, max_socks=1,
                                               prelude=[("m", 0, "cea_ok")], deviations=dev, start_plan=["ok"]))
+    # the dialled peer answers with its Origin-Host spelt in capitals: still that peer, with that peer's timer settings
+    cfg = base(4, 3, 1)
+    cfg["peers"][0].update({"ips": ["10.1.0.9"], "persistent": True, "reconnect_wait": 60, "idle_timeout": 2, "dwa_timeout": 1})
+    out.append(monitors.ScenarioModel("outbound-peer-name-in-capitals", cfg, alpha, MONS, max_socks=1,
+                                      prelude=[("m", 0, "cea_okcase")], deviations=dev, start_plan=["ok"]))
     # second lifetimes: (a) the same inbound peer again after its first connection was lost for another reason; (b) another peer with
     # other timer settings on the next connection, which gets the descriptor the first one had (the OS hands out the lowest free one)
     alpha1 = [(e[0], 1) + tuple(e[2:]) if e[0] != "tick" else e for e in alpha]
